@@ -129,6 +129,14 @@ Definition ns_value (v : json) : json :=
 Definition is_op_name (s : string) (search : bool) : bool :=
   match get_op tb [] s search with Some _ => true | None => false end.
 
+(* a scalar met by redactPipelineStage where a stage or operator document is expected *)
+Definition p_leaf (rfn : bool) (kp : list string) (search : bool) (t : json) : json :=
+  match t with
+  | JNull => JNull
+  | JStr s => if starts_with_dollar s then dollar_string rfn s else scalar kp "" t search false
+  | _ => scalar kp "" t search false
+  end.
+
 Section Rec.
 Variable rec : mode -> json -> json.
 
@@ -272,7 +280,11 @@ Fixpoint walk (m : mode) (t : json) {struct t} : json :=
     | MA pk rfn search sel kp => JArr (map (arr_item walk pk rfn search sel kp) l)
     | MQ _ _ _ _ => t
     end
-  | _ => t
+  | _ =>
+    match m with
+    | MP rfn kp search => p_leaf rfn kp search t
+    | _ => t
+    end
   end.
 
 End Walk.
